@@ -391,8 +391,9 @@ func c04Families(thorough bool) []*engine.IFamily {
 
 func init() {
 	engine.Register(&engine.Check{
-		ID:       "C04",
-		Families: func(c *engine.Ctx) []*engine.IFamily { return c04Families(c.Thorough) },
+		ID:        "C04",
+		Families:  func(c *engine.Ctx) []*engine.IFamily { return c04Families(c.Thorough) },
+		Scenarios: func(c *engine.Ctx) []*engine.SScenario { return updateLinScenarios(true, c.Thorough) },
 		Run: func(c *engine.Ctx) *engine.Report {
 			rep := &engine.Report{Level: "model_checking", Coverage: map[string]any{}}
 			var names []string
@@ -407,6 +408,8 @@ func init() {
 			rep.Coverage["transitions"] = int(ev)
 			rep.Coverage["traces_validated_against_impl"] = int(ev)
 			_ = nt
+			// the application changes the protection while a peer writes: flag, value and result stay consistent
+			mergeS(c, rep, updateLinScenarios(true, c.Thorough), engine.SPlan{Bounds: boundsFor(c, []int{0, 1, 2}, []int{0, 1, 2, 3, -1})})
 			rep.Assumptions = []string{"whether a write that adds an unknown identifier is accepted is left open by the statement; every other clause is checked on whatever result the stack sends"}
 			return rep
 		},
